@@ -113,7 +113,10 @@ Definition item_has (star_val : Z) (it : sitem) (x : Z) : bool :=
   end.
 Definition set_has (star_val : Z) (s : list sitem) (x : Z) : bool := existsb (fun it => item_has star_val it x) s.
 
-Definition has_flag (m : smsg) (f : str) : bool := existsb (str_eqb f) (s_flags m).
+(** when two flag names denote the same flag — ONE definition (exact bytes today;
+    switch together with Model.Search.flag_eqb, see Proof/SearchAtoms.flag_cmp_agree) *)
+Definition flag_same (f flag : str) : bool := str_eqb f flag.
+Definition has_flag (m : smsg) (f : str) : bool := existsb (fun g => flag_same g f) (s_flags m).
 
 (** header fields of the text: the lines up to the first empty one, a line
     starting with SP / HTAB continues the previous field (RFC 5322 unfolding:
